@@ -498,3 +498,29 @@ func liftMust(fn *ssa.Function, must instrPred, depth int) instrPred {
 func successEscapesWrap(fn *ssa.Function, must instrPred) ssa.Instruction {
 	return successEscapes(fn, must, nil)
 }
+
+// allPathsFail: every feasible path from start ends in a return whose error is non-nil on that path (the verdict of a
+// validation may travel through a variable to the exit: `if err := validate(); err != nil { return nil, err }` once the
+// validation is inlined).
+func allPathsFail(start *ssa.BasicBlock) bool {
+	if len(start.Instrs) > 0 {
+		if ret, ok := start.Instrs[len(start.Instrs)-1].(*ssa.Return); ok && classifyErr(ret) == ErrNonNil {
+			return true
+		}
+	}
+	paths, trunc := enumPaths(start, walkCfg{MaxVisits: 1, MaxPaths: 2000 * pathScale, Decide: decideOnPath})
+	if trunc || len(paths) == 0 {
+		return false
+	}
+	n := 0
+	for _, p := range paths {
+		if !p.Feasible() {
+			continue
+		}
+		n++
+		if p.End != EndReturn || pathErrClass(p) != ErrNonNil {
+			return false
+		}
+	}
+	return n > 0
+}
